@@ -69,7 +69,18 @@ pub fn c10_index(max_full: u32) {
 // ---- bounded boards for the evaluator ------------------------------------------------------------------
 
 pub fn any_side(maxn: u32) -> [u64; 7] {
-    let a: [u64; 7] = [0, sym::u64(), sym::u64(), sym::u64(), sym::u64(), sym::u64(), sym::u64()];
+    any_side_kinds(maxn, 0b111110)
+}
+
+/// kinds: bit k set = pieces of kind k (1 = pawn .. 5 = queen) may be present
+pub fn any_side_kinds(maxn: u32, kinds: u32) -> [u64; 7] {
+    let mut a: [u64; 7] = [0, sym::u64(), sym::u64(), sym::u64(), sym::u64(), sym::u64(), sym::u64()];
+    // (no loop: the harness-wide unwind bound is sized for the evaluator's popcount loops)
+    if kinds & (1 << 1) == 0 { a[1] = 0; }
+    if kinds & (1 << 2) == 0 { a[2] = 0; }
+    if kinds & (1 << 3) == 0 { a[3] = 0; }
+    if kinds & (1 << 4) == 0 { a[4] = 0; }
+    if kinds & (1 << 5) == 0 { a[5] = 0; }
     sym::assume(a[1].count_ones() <= maxn && a[2].count_ones() <= maxn && a[3].count_ones() <= maxn && a[4].count_ones() <= maxn && a[5].count_ones() <= maxn);
     sym::assume(a[6].count_ones() == 1);
     sym::assume(a[1] & a[2] == 0 && (a[1] | a[2]) & a[3] == 0 && (a[1] | a[2] | a[3]) & a[4] == 0 && (a[1] | a[2] | a[3] | a[4]) & a[5] == 0 && (a[1] | a[2] | a[3] | a[4] | a[5]) & a[6] == 0);
@@ -126,7 +137,7 @@ fn flip_board(p: &Bitboard, w: &[u64; 7], b: &[u64; 7]) -> Bitboard {
         white: bverif::player_state(flipv(b), p.black.queen_side_castle, p.black.king_side_castle),
         black: bverif::player_state(flipv(w), p.white.queen_side_castle, p.white.king_side_castle),
         turn: 1 - p.turn,
-        en_passant_square_shift: 0,
+        en_passant_square_shift: if p.en_passant_square_shift == 0 { 0 } else { p.en_passant_square_shift ^ 56 },
         fullmove_clock: p.fullmove_clock,
         halfmove_clock: p.halfmove_clock,
     }
@@ -150,9 +161,9 @@ pub fn c11_material() {
 
 /// C11.3: evaluate(flip P) == -evaluate(P) on boards with the kings and at most `maxn` pieces of each
 /// kind per side on arbitrary squares, clocks free.
-pub fn c11_eval(maxn: u32) {
-    let w = any_side(maxn);
-    let b = any_side(maxn);
+pub fn c11_eval(maxn: u32, kinds: u32) {
+    let w = any_side_kinds(maxn, kinds);
+    let b = any_side_kinds(maxn, kinds);
     sym::assume(all7(&w) & all7(&b) == 0);
     let turn = sym::u32();
     sym::assume(turn < 2);
@@ -166,22 +177,17 @@ pub fn c11_eval(maxn: u32) {
         sym::note("position", crate::native_util::describe(&p));
         sym::note("flipped", crate::native_util::describe(&f));
     }
-    cov!((all7(&w) | all7(&b)).count_ones() >= 10, "ten or more pieces");
+    cov!((all7(&w) | all7(&b)).count_ones() >= 6, "six or more pieces");
     cov!(everif::evaluate(&p, true) != 0, "non-zero evaluation");
     assert!(everif::evaluate(&f, true) == -everif::evaluate(&p, true), "C11.3 static evaluation of the colour-flipped twin is not the negation");
 }
 
-/// C11.3 on the mover's-point-of-view value the search uses: factor(turn) * evaluate is unchanged by
-/// the flip (same boards as c11_eval).
-pub fn c11_eval_mover(maxn: u32) {
-    let w = any_side(maxn);
-    let b = any_side(maxn);
-    sym::assume(all7(&w) & all7(&b) == 0);
-    let turn = sym::u32();
-    sym::assume(turn < 2);
-    let p = Bitboard { white: bverif::player_state(w, false, false), black: bverif::player_state(b, false, false), turn, en_passant_square_shift: 0, fullmove_clock: 1, halfmove_clock: 0 };
-    let f = flip_board(&p, &w, &b);
-    assert!(everif::heuristic_factor(f.turn) * everif::evaluate(&f, true) == everif::heuristic_factor(p.turn) * everif::evaluate(&p, true), "C11.3 mover's-view evaluation changes under the colour flip");
+/// C11.3 (mover's view): the search multiplies the white-centric evaluation by `calculate_heuristic_factor`;
+/// with factor(white) = 1 and factor(black) = -1 the mover's-view value of flip(P) equals that of P by
+/// c11_eval (factor(1-t) * -e = factor(t) * e).  (A direct harness multiplying two symbolic values took
+/// 24 minutes; the lemma is exact because the factor has only two arguments.)
+pub fn c11_factor() {
+    assert!(everif::heuristic_factor(0) == 1 && everif::heuristic_factor(1) == -1, "C11.3 heuristic factor is not +1 for white / -1 for black");
 }
 
 /// C05.3 + C11.4: terminal scores on fully symbolic boards.  No legal move and in check => a losing mate
